@@ -150,3 +150,25 @@ contract("codemodder.codemods.xml_transformer.XMLTransformerPipeline.apply", pro
               "implies(result is not None, len(result.changes) > 0 and result.path == str(" + _P + ".relative_to(context.directory)))"),
              ("a failed file never also gets a changeset", "implies(file_context.failures != old(file_context.failures), result is None)"),
          ])
+
+# ---- XML: which SAX events a SAST-driven transformer acts on (C19, C06) ---------------------------------------------------------------------
+from pyvc.api import record as _record
+_record("codemodder.codemods.xml_transformer.XMLTransformer", kind="ref",
+        fields={"results": "list[Result] | None", "line_only_matching": "bool", "changes": "list[Change]", "file_context": "FileContext",
+                "change_description": "str"})
+_HIT = ("(self.line_only_matching and l.start.line == line) or (l.start.line == line and l.start.column - 1 == column)")
+contract("codemodder.codemods.xml_transformer.XMLTransformer.match_result", props=["C19", "C06"],
+         params={"self": "XMLTransformer", "line": "int", "column": "int"}, returns="bool",
+         invariants={0: ["not any(any(" + _HIT + " for l in seq[j].locations) for j in range(k))"],
+                     1: ["not any(" + _HIT.replace("l.", "seq[j].") + " for j in range(k))"]},
+         ensures=[("without findings every event matches", "implies(self.results is None, result)"),
+                  ("with findings: an event matches exactly when some finding starts on its line and - unless line-only matching is on - at its column",
+                   "implies(self.results is not None, iff(result, any(any(" + _HIT + " for l in r.locations) for r in self.results)))"),
+                  ("a finding on another line never matches",
+                   "implies(self.results is not None and all(all(l.start.line != line for l in r.locations) for r in self.results), not result)")])
+contract("codemodder.codemods.xml_transformer.XMLTransformer.add_change", props=["C19"],
+         params={"self": "XMLTransformer", "line": "int"}, modifies=["self.changes"], raises_any=True,
+         ensures=[("exactly one change is appended, for this line, carrying the findings of this line",
+                   "len(self.changes) == len(old(self.changes)) + 1 and self.changes[len(self.changes) - 1].lineNumber == line"
+                   " and self.changes[len(self.changes) - 1].findings == self.file_context.get_findings_for_location(line)"
+                   " and all(self.changes[i] == old(self.changes)[i] for i in range(len(old(self.changes))))")])
